@@ -174,6 +174,9 @@ def worker_main(argv):
       if env is not None:
         env.begin_case(rng, idx)
       signal.setitimer(signal.ITIMER_REAL, case_limit)
+      if a.upto is not None and idx == a.upto and os.environ.get('VERIF_DEBUG_PRE'):
+        exec(open(os.environ['VERIF_DEBUG_PRE']).read(), {'env': env, 'check': check})
+        signal.setitimer(signal.ITIMER_REAL, 0)
       try:
         res = check.run_case(env, rng, idx, a.tier)
       except CaseHang:
@@ -186,6 +189,8 @@ def worker_main(argv):
         signal.setitimer(signal.ITIMER_REAL, 0)
       if a.upto is not None and idx != a.upto:
         continue      # history only: the cases before the replayed one ran to reproduce its starting state
+      if a.upto is not None and os.environ.get('VERIF_DEBUG_HOOK'):
+        exec(open(os.environ['VERIF_DEBUG_HOOK']).read(), {'env': env, 'res': res, 'check': check})
       out['evaluations'] += 1
       out['obligations'] += res.obligations
       if res.nontrivial and res.sig is not None:
